@@ -16,12 +16,12 @@ def run(ctx):
 def scenarios(ctx):
     q = ctx.quick
     return [
-        dict(name="bursts-of-tiny-messages", n=4 if q else 12, nticks=600 if q else 1200, heal_after=400 if q else 900,
+        dict(name="bursts-of-tiny-messages", n=4 if q else 12, nticks=450 if q else 1200, heal_after=300 if q else 900,
              policy=dict(burst=0.03, p_loss=0.02, lens=[0, 1, 2, 3, 4, 5, 50, 700, 1400], retries=(0, 0, -1, 1), burst_lens=[0, 0, 1]), world=dict(start_seq="alt")),
-        dict(name="bursts-resent-after-a-hitch", n=3 if q else 10, nticks=500 if q else 1000, heal_after=350 if q else 750,
+        dict(name="bursts-resent-after-a-hitch", n=3 if q else 10, nticks=350 if q else 1000, heal_after=250 if q else 750,
              policy=dict(burst=0.04, p_send=0.1, p_loss=0.05, mindelay=14, maxdelay=22, lens=[0, 1, 5], retries=(1, -1), burst_lens=[0, 0, 0, 1], burst_retries=(1, 1, -1), p_stall=0.08),
              world=dict(start_seq="alt")),
-        dict(name="bursts-mtu512", n=2 if q else 8, nticks=600 if q else 1200, heal_after=400 if q else 900,
+        dict(name="bursts-mtu512", n=2 if q else 8, nticks=450 if q else 1200, heal_after=300 if q else 900,
              policy=dict(burst=0.03, p_loss=0.02, retries=(0, -1, 1)), world=dict(start_seq="alt", mtu=512)),
         dict(name="mixed-mtu1096", n=2 if q else 8, nticks=600 if q else 1200, heal_after=400 if q else 900,
              policy=dict(p_send=0.5, p_loss=0.05), world=dict(start_seq="alt", mtu=1096)),
